@@ -105,6 +105,8 @@ def cases(draw, tier):
         # validly signed version-2 certificates of unusual but loadable shape
         cc = draw(c07.cases(tier))
         cc["corruptions"] = []
+        for k in ("rd_shift_q", "rd_shift_a", "grind_auth", "grind_custom"):
+            cc["spec"].pop(k, None)
         return {"kind": "shaped-v2", "c07": cc,
                 "shape": draw(st.sampled_from(V2_SHAPES)),
                 "extra": draw(st.binary(min_size=1, max_size=8)),
@@ -231,7 +233,7 @@ def render(c):
             return c["text"], HSMCertificateV2ElementX509(certs.V2Cert(
                 {"root": 1, "leaf": 2, "att": 3, "auth": b"a", "custom": b"c"}
             ).root_element_map()), 2
-        return c["text"], HSMCertificateRoot(ROOT1_PUB.hex()), c.get("v", 0)
+        return c["text"], HSMCertificateRoot(c.get("root_hex") or ROOT1_PUB.hex()), c.get("v", 0)
     if c["kind"] == "genuine-v1":
         cert, root_pub = c06.build(c["c06"])
         return json.dumps(cert.to_dict()), HSMCertificateRoot(root_pub.hex()), 1
@@ -302,7 +304,8 @@ def guarded(fn, what, text):
     import time
     for attempt in (1, 2):
         prev = signal.getsignal(signal.SIGALRM)
-        left = signal.alarm(0)
+        left = signal.getitimer(signal.ITIMER_REAL)[0]
+        signal.setitimer(signal.ITIMER_REAL, 0)
         t0 = time.monotonic()
         signal.signal(signal.SIGALRM, _alarm)
         signal.alarm(10)
@@ -315,7 +318,7 @@ def guarded(fn, what, text):
             signal.alarm(0)
             signal.signal(signal.SIGALRM, prev if prev is not None else signal.SIG_DFL)
             if left:
-                signal.alarm(max(1, int(left - (time.monotonic() - t0))))
+                signal.setitimer(signal.ITIMER_REAL, max(0.5, left - (time.monotonic() - t0)))
 
 
 def norm(res):
@@ -528,6 +531,7 @@ def reference_cases(tier, seed):
                 d = json.loads(json.dumps(doc))
                 d["elements"][i]["signed_by"] = nm
                 out.append({"kind": "text", "v": ver, "text": json.dumps(d),
+                            "root_hex": dev.root_pub.hex(),
                             "what": "signer-of:%s" % e["name"]})
         for i, t in enumerate(doc["targets"]):
             for nm in NEAR_NAMES:
@@ -536,7 +540,7 @@ def reference_cases(tier, seed):
                 d = json.loads(json.dumps(doc))
                 d["targets"][i] = nm
                 out.append({"kind": "text", "v": ver, "text": json.dumps(d),
-                            "what": "target"})
+                            "root_hex": dev.root_pub.hex(), "what": "target"})
     return out
 
 
@@ -549,10 +553,10 @@ def stages(tier):
     from vlib.runner import FuzzStage, EnumStage
     return [HypStage("documents", lambda t: cases(t), run_case,
                      {"quick": 400, "thorough": 15000},
-                     budget_s={"quick": 100, "thorough": 1200}),
+                     budget_s={"quick": 300, "thorough": 1200}),
             EnumStage("near-miss-references", reference_cases, run_reference_case,
                       exhaustive={"quick": True, "thorough": True},
-                      budget_s={"quick": 60, "thorough": 60}),
+                      budget_s={"quick": 180, "thorough": 60}),
             FuzzStage("fuzz", "C16", [("raw", False), ("raw", True), ("hyp", False)],
                       {"quick": 3000, "thorough": 60000}, run_case, fuzz_to_case, fuzz_seeds,
                       budget_s={"quick": 45, "thorough": 600}, max_len=6000,
